@@ -165,6 +165,22 @@ def subharnesses(tier):
                         'sym_valid_until': pv == 'lease'}
                   subs.append(('probe-%s-%s-%s-%s' % (topo, g1.ptag(res), pv,
                                                       hv), spec))
+    # rack-level affinity head-room after a server hosting instances of the
+    # affinity was replaced (Loader.reload_server) or emptied (remove_all)
+    for topo in ptopos[:1]:
+        for pre, tag in (([['replace_server', 0, {}]], 'replaced'),
+                         ([['remove_server', 0]], 'removed')):
+            lim = {'server': 2, 'rack': 2, 'cell': 3}
+            spec = {'mode': 'probe', 'topo': topo, 'D': 1, 'havoc': 'agg',
+                    'servers': [{} for _ in g1.TOPOS[topo][1]],
+                    'allocs': [{'path': [], 'label': '_default'}],
+                    'apps': [{'place': 0, 'aff': 'x', 'limits': dict(lim)},
+                             {'place': 1, 'aff': 'x', 'limits': dict(lim)},
+                             {'absent': True, 'place': None, 'aff': 'x',
+                              'limits': dict(lim), 'priority': 1}],
+                    'pre_events': pre, 'event': ['none'],
+                    'pv': 'affinity_after_' + tag, 'sym_valid_until': False}
+            subs.append(('probe-%s-affinity_after_%s' % (topo, tag), spec))
     # the probe needs an identity: one is free exactly when fewer members of
     # its group hold one than the group's count - also after a holder lost its
     # server to the loader and was deleted before the next cycle
